@@ -18,13 +18,17 @@ def src(name, d, compname="c1"):
     def block(blk):
         s = "{% block " + blk + " %}" + blk + name + ("[" if d.get("v2") else "(")
         after = blk == "a" and d.get("sa")
+        # (in every other template the block first calls ANOTHER function: which call is super() must not depend on its position)
+        pre = "{% set r_ = range(end=1) %}" if name[-1:] in ("B", "D") else ""
         if d[blk] == "super" and not after:
-            s += "{{ super() }}"
+            s += pre + "{{ super() }}"
         if blk == "a" and d["nest"] and d["b"] != "none":
             inner = block("b")
             s += ("{% filter safe %}" + inner + "{% endfilter %}") if d["cap"] else inner
+            if d.get("sib"):          # a second new block next to the nested one
+                s += "{% block c %}c" + name + ("[" if d.get("v2") else "(") + "){% endblock %}"
         if d[blk] == "super" and after:
-            s += "{{ super() }}"
+            s += pre + "{{ super() }}"
         if blk == "a" and d["inc"] and d["incpos"] == "block":
             s += inc
         return s + "){% endblock %}"
